@@ -175,6 +175,7 @@ func init() {
 			iv := a[1].(IfaceV)
 			in.stubs[in.concreteStr(a[0], "stub name")] = iv.V
 			in.res.NoNative = true
+			in.res.NoNativeHard = true
 			return TupleV{}
 		},
 		"vhSymbolic": func(in *Interp, fn *ssa.Function, a []Value) Value { return in.ctx.True },
